@@ -76,17 +76,17 @@ def run(tier, seed):
         # systematic scripted clients: for the atoms of rank 0..2 every combination of "start delayed 0 / 1 / 2 times by 2",
         # "ends delayed once or never", "no failure or the failure of one atom at tick 3 / 6 / 9 / 12"
         import itertools
-        scripted = (pressure[:1] if tier == 'quick' else pressure[:4]) + [p for p in problems if p[0].startswith('execution')][:1 if tier == 'quick' else 3]
+        scripted = (pressure[:3] if tier == 'quick' else pressure[:6]) + [p for p in problems if p[0].startswith('execution')][:1 if tier == 'quick' else 3]
         for name, files in scripted:
             k = 0
             for sd in itertools.product((0, 1, 2), repeat=3):
                 for ed in (0, 1):
                     for fail in [None] + [(t, r) for t in (3, 6, 9, 12) for r in (0, 1, 2)]:
-                        if tier == 'quick' and (sum(sd) + ed + (fail is not None) < 2 or (k % 3)):
+                        if tier == 'quick' and (sum(sd) + ed + (fail is not None) < 2 or (k % 4)):
                             k += 1
                             continue
                         k += 1
-                        spec = ','.join(['s%d=%dx2' % (r, c) for r, c in enumerate(sd) if c] + ['e%d=1x1' % r for r in range(3) if ed] +
+                        spec = ','.join(['s%d=%dx%d' % (r, c, 5 if (c == 1 and k % 2) else 2) for r, c in enumerate(sd) if c] + ['e%d=1x1' % r for r in range(3) if ed] +
                                         (['f=%d:%d' % fail] if fail else [])) or 's9=0x1'
                         rn = '%s@s%d' % (name, k)
                         runs.append((rn, files))
